@@ -32,6 +32,8 @@ func c20(p *P) {
 	r.Rule("C20.R2", "delay extension ≤ delay/2 and ≤ request time", 3)
 	r.Rule("C20.R3", "predictor direction table", 3)
 	r.Rule("C20.R4", "CatchUp progress = store latest + 1 − NextInstance(before)", 2)
+	p.gPollStatusTable("C20.R6")
+	r.Rule("C20.R6", "poll outcomes booked under their own tracker method (failing peers are backed off)", 2)
 	p.include(c16, map[string]string{"C16.R4": "C20.R5"}, map[string]string{"C20.R5": "the poller advances NextInstance exactly by the validated, stored prefix"})
 
 	// ---------- R1
